@@ -188,6 +188,20 @@ def m_is_digit(ex, a):
     c = a[0]; radix = pyint(ex, a[1])
     if radix != 10: raise Unsupported('radix')
     return Bool(z3.And(z3.UGE(c.bv, ord('0')), z3.ULE(c.bv, ord('9'))))
+_CAT = {}
+def category_ranges(prefixes):
+    key = tuple(prefixes)
+    if key not in _CAT:
+        import unicodedata
+        out = []; start = None
+        for cp in range(0x110000):
+            if 0xD800 <= cp <= 0xDFFF: hit = False
+            else:
+                cat = unicodedata.category(chr(cp)); hit = any(cat.startswith(p) for p in prefixes)
+            if hit and start is None: start = cp
+            if not hit and start is not None: out.append((start, cp - 1)); start = None
+        _CAT[key] = out
+    return _CAT[key]
 _NUMERIC_RANGES = None
 def numeric_ranges():
     """code point ranges with Unicode general category N* (char::is_numeric), from Python's unicodedata"""
@@ -223,8 +237,14 @@ def m_char_classes(ex, a, m):
     if op == 'is_ascii_punctuation': return Bool(z3.Or(rng(33, 47), rng(58, 64), rng(91, 96), rng(123, 126)))
     if op == 'is_control': return Bool(z3.Or(z3.ULT(x, 32), rng(127, 159)))
     if op == 'len_utf8': return Int(z3.If(z3.ULT(x, 0x80), z3.BitVecVal(1, 64), z3.If(z3.ULT(x, 0x800), z3.BitVecVal(2, 64), z3.If(z3.ULT(x, 0x10000), z3.BitVecVal(3, 64), z3.BitVecVal(4, 64)))), 'usize')
+    WS = [(9, 13), (32, 32), (0x85, 0x85), (0xA0, 0xA0), (0x1680, 0x1680), (0x2000, 0x200A), (0x2028, 0x2029), (0x202F, 0x202F), (0x205F, 0x205F), (0x3000, 0x3000)]
     c = v.concrete()
-    if c is None: raise Unsupported(f'symbolic char::{op}')
+    if c is None:
+        # Unicode property tables of the host's database (approximation of Rust's: Alphabetic ~ categories L* and Nl); stated as a model
+        if op == 'is_whitespace': return Bool(z3.Or(*[rng(lo, hi) for lo, hi in WS]))
+        alpha = z3.Or(*[rng(lo, hi) for lo, hi in category_ranges(('L', 'Nl'))])
+        if op == 'is_alphabetic': return Bool(alpha)
+        return Bool(z3.Or(alpha, *[rng(lo, hi) for lo, hi in numeric_ranges()]))
     ch = chr(c)
     return Bool({'is_alphabetic': ch.isalpha(), 'is_alphanumeric': ch.isalnum(), 'is_whitespace': ch.isspace()}[op])
 @model_rx(r'^<&?(std::string::String|str|&str)( as|&) PartialEq.*>::(eq|ne)$|^<&?&?(std::string::String|str) as PartialEq<.*>>::(eq|ne)$|^<&?&?(std::string::String|str) as PartialEq>::(eq|ne)$')
@@ -724,7 +744,7 @@ def m_dyn(ex, a, m):
 
 # ------------------------------------------------------------------------------------------ Display / Debug / Formatter
 class FormatterV:
-    def __init__(s): s.buf = []
+    def __init__(s): s.buf = []; s.chars = []
 def fmt_display(ex, v):
     v = deref_all(v)
     if isinstance(v, StrV):
@@ -789,10 +809,12 @@ def m_to_string(ex, a, m):
     return rstr(fmt_display(ex, v))
 @model('std::fmt::Formatter::write_str')
 def m_write_str(ex, a):
-    a[0].cell.v.buf.append(conc(ex, as_str(a[1]))); return ok(UNIT)
+    f = a[0].cell.v; sv = as_str(a[1]); f.chars.extend(sv.chars)
+    f.buf.append(sv.concrete() if sv.concrete() is not None else '\ufffd' * len(sv.chars)); return ok(UNIT)
 @model('std::fmt::Formatter::write_fmt')
 def m_write_fmt(ex, a):
-    a[0].cell.v.buf.append(render_arguments(ex, a[1])); return ok(UNIT)
+    f = a[0].cell.v; cs = render_chars(ex, a[1]); f.chars.extend(cs)
+    f.buf.append(''.join(c if isinstance(c, str) else (chr(c.concrete()) if c.concrete() is not None else '\ufffd') for c in cs)); return ok(UNIT)
 @model_rx(r'^std::fmt::Formatter::debug_tuple_field(\d)_finish$')
 def m_debug_tuple(ex, a, m):
     f = a[0].cell.v; name = conc(ex, as_str(a[1]))
@@ -1492,3 +1514,87 @@ def m_to_jmespath_rc(ex, a, m):
     v = a[0]
     if isinstance(v, Ptr) and v.kind == 'rc' and isinstance(v.cell.v, Agg) and v.cell.v.ty == 'Variable': return ok(v)
     return NotImplemented
+
+# ------------------------------------------------------------------------------------------ symbolic-aware string slicing / scanning
+def _byte_positions(ex, sv):
+    pos = [Int(0, 'usize')]
+    for c in sv.chars:
+        w = ex.str_byte_len(StrV([c])); p = pos[-1]
+        pc_, wc = p.concrete(), w.concrete()
+        pos.append(Int(pc_ + wc, 'usize') if pc_ is not None and wc is not None else Int(z3.simplify(p.bv + w.bv), 'usize'))
+    return pos
+def _boundary_index(ex, sv, off, what):
+    """fork over the character boundary k with byte position == off; None when off is no boundary / out of range"""
+    pos = _byte_positions(ex, sv)
+    oc = off.concrete()
+    conds = []
+    for k, p in enumerate(pos):
+        pc_ = p.concrete()
+        if oc is not None and pc_ is not None:
+            if oc == pc_: return k
+            continue
+        conds.append((k, p.bv == off.bv))
+    if not conds: return None
+    conds.append((None, z3.And(*[z3.Not(c) for _, c in conds])))
+    return ex.choose(conds)
+def str_slice(ex, sv, lo, hi):
+    i = 0 if lo is None else _boundary_index(ex, sv, lo, 'start')
+    j = len(sv.chars) if hi is None else _boundary_index(ex, sv, hi, 'end')
+    if i is None or j is None or i > j: return None
+    return StrV(sv.chars[i:j])
+def _range_parts(rng):
+    lo = hi = None
+    if isinstance(rng, Agg):
+        nm = rng.ty or ''; vals = [c.v for c in rng.fields]
+        if 'RangeFull' in nm or not vals: pass
+        elif 'RangeTo' in nm: hi = vals[0]
+        elif 'RangeFrom' in nm: lo = vals[0]
+        else: lo, hi = vals[0], (vals[1] if len(vals) > 1 else None)
+    return lo, hi
+@model_override(r'^(?:core::|alloc::|std::)?str::<impl str>::get(::<.*>)?$|^<std::ops::Range\w*(?:<usize>)? as (?:std::slice::)?SliceIndex<str>>::(index|get)$|^<(str|std::string::String) as (?:std::ops::)?Index<(?:std::ops::)?Range\w*(?:<usize>)?>>::index$')
+def m_str_slice_sym(ex, a, m):
+    if m.group(2): rng, tgt, is_get = a[0], a[1], m.group(2) == 'get'
+    elif m.group(3): rng, tgt, is_get = a[1], a[0], False
+    else: rng, tgt, is_get = a[1], a[0], True
+    sv = deref_all(tgt)
+    if not isinstance(sv, StrV): return NotImplemented
+    lo, hi = _range_parts(rng)
+    if isinstance(rng, Agg) and 'Inclusive' in (rng.ty or ''): return NotImplemented
+    r = str_slice(ex, sv, lo, hi)
+    if is_get: return none() if r is None else some(Ptr(Cell(r), 'ref'))
+    if r is None: raise Panic('byte index is out of range or not a char boundary (str slice)')
+    return Ptr(Cell(r), 'ref')
+def _is_nl(ex, c):
+    from .jsonmodel import is_ch
+    return is_ch(ex, c, '\n')
+@model_override(r'^(?:core::|alloc::|std::)?str::<impl str>::(lines|split|rsplit|split_terminator|matches|rfind|find|split_once|rsplit_once)(::<.*>)?$')
+def m_str_scan_sym(ex, a, m):
+    """scanning for a single (concrete) character in a string with symbolic characters; everything else declines to the concrete models"""
+    from .jsonmodel import is_ch
+    op = m.group(1); sv = as_str(a[0])
+    if sv.concrete() is not None and op != 'lines': return NotImplemented
+    if op == 'lines': pat = '\n'
+    else:
+        p = deref_all(a[1]) if isinstance(a[1], Ptr) else a[1]
+        if isinstance(p, StrV) and p.concrete() is not None and len(p.concrete()) == 1: pat = p.concrete()
+        elif isinstance(p, Int) and p.concrete() is not None: pat = chr(p.concrete())
+        else: return NotImplemented
+    chars = sv.chars; hits = [i for i, c in enumerate(chars) if is_ch(ex, c, pat)]
+    pos = _byte_positions(ex, sv)
+    mk = lambda cs: Ptr(Cell(StrV(cs)), 'ref')
+    if op in ('find', 'rfind'):
+        if not hits: return none()
+        return some(pos[hits[0] if op == 'find' else hits[-1]])
+    if op == 'matches': return IterV(iter([mk([chars[i]]) for i in hits]))
+    if op in ('split_once', 'rsplit_once'):
+        if not hits: return none()
+        i = hits[0] if op == 'split_once' else hits[-1]
+        return some(Agg('tuple', None, None, [Cell(mk(chars[:i])), Cell(mk(chars[i + 1:]))]))
+    pieces = []; start = 0
+    for i in hits: pieces.append(chars[start:i]); start = i + 1
+    pieces.append(chars[start:])
+    if op in ('lines', 'split_terminator'):
+        if not pieces[-1]: pieces.pop()
+        if op == 'lines': pieces = [p[:-1] if (p and is_ch(ex, p[-1], '\r')) else p for p in pieces]
+    if op == 'rsplit': pieces = pieces[::-1]
+    return IterV(iter([mk(p) for p in pieces]))
